@@ -87,6 +87,18 @@ class Desugar(ast.NodeTransformer):
                 ast.copy_location(n, old)
         return ast.fix_missing_locations(new)
 
+    def visit_Call(self, node):
+        # str(x) with exactly one positional argument -> __pyvc_str__(x): the same str(x), except that it refuses a built-in
+        # container with symbolic parts (whose text would spell out placeholder names).  The NAME `str` itself stays
+        # the real type (class bases such as `class Dtype(str, Enum)`, type(x) == str, str.join).
+        self.generic_visit(node)
+        if isinstance(node.func, ast.Name) and node.func.id == "str" and len(node.args) == 1 and not node.keywords \
+                and not isinstance(node.args[0], ast.Starred):
+            self.str_calls = getattr(self, "str_calls", 0) + 1
+            new = ast.Call(func=ast.copy_location(ast.Name(id="__pyvc_str__", ctx=ast.Load()), node.func), args=node.args, keywords=[])
+            return ast.copy_location(new, node)
+        return node
+
     def visit_ListComp(self, node):
         self.generic_visit(node)
         if not self._ok(node):
@@ -412,4 +424,4 @@ def desugar(src, path):
     ld.run(tree)
     ast.fix_missing_locations(tree)
     return tree, {"comprehensions": d.count, "comprehensions_untouched": d.skipped, "loops": ld.count,
-                  "loops_guarded": ld.guarded}
+                  "loops_guarded": ld.guarded, "str_calls": getattr(d, "str_calls", 0)}
